@@ -205,9 +205,10 @@ def bad (a : Arena) : Arena × String := (a, "bad-op")
 def stepBody (a : Arena) (fin : Bool) (op : Op) : Arena × String :=
   match op with
   | .setPacing p =>
-    ({ a with ctx := a.ctx.withMetrics (·.setPacing p) }, "ok")
+    -- `Metrics` is a cloneable handle: usable while a `MarkedArena` is held; `marked` is kept
+    ({ a with ctx := a.ctx.withMetrics (·.setPacing p), marked := fin }, "ok")
   | .adjustDebt x =>
-    ({ a with ctx := a.ctx.withMetrics (·.adjustDebt x) }, "ok")
+    ({ a with ctx := a.ctx.withMetrics (·.adjustDebt x), marked := fin }, "ok")
   | .collect m k fault oracle =>
     if a.cb.isSome then a.bad else
     let os := splitOracle oracle k m
